@@ -258,7 +258,8 @@ class CallMixin(object):
       yield o
 
   def force_inline(self, fn):
-    return False
+    u = self.reg.functions.get(self.unit)
+    return u is not None and fn.qual in u.inline_calls
 
   def inline_call(self, st, cx, fn, args, kwargs, node):
     if self.depth >= MAX_INLINE_DEPTH:
@@ -588,18 +589,20 @@ class CallMixin(object):
     trig_node = None
     multi = isinstance(a[0], ast.Tuple)
     if multi:
-      if not name.endswith('_ref'):
-        raise Unsupported('multi-variable quantifier only for forall_ref/exists_ref')
-      cname = a[1].id
-      ty = Ty('ref', (), cname)
       xs = [z3.Int(fresh_name(e.id)) for e in a[0].elts]
+      if name.endswith('_ref'):
+        ty = Ty('ref', (), a[1].id)
+        body_i, trig_i = 2, 3
+      else:
+        ty = INT            # forall((i, j), body[, triggers]) over integers
+        body_i, trig_i = 1, 2
       st.frames[fid] = dict((e.id, V(ty, xv)) for e, xv in zip(a[0].elts, xs))
       pats = []
       try:
         qcx = Ctx(cx.mod, cx.cls, [fid] + list(cx.chain), cx.spec, cx.qual)
-        body = self.ev1(a[2], st, qcx)
-        if len(a) > 3:
-          tn = a[3].elts if isinstance(a[3], ast.Tuple) else [a[3]]
+        body = self.ev1(a[body_i], st, qcx)
+        if len(a) > trig_i:
+          tn = a[trig_i].elts if isinstance(a[trig_i], ast.Tuple) else [a[trig_i]]
           pats = [self.ev1(t, st, qcx).t for t in tn]
       finally:
         st.frames.pop(fid, None)
